@@ -481,3 +481,115 @@ CONTRACTS.append(_placement_part(
     [("molecule.add_or_replace_interaction(inter_type, *interaction, link.citations)", "pass"),
      ("molecule.add_or_replace_interaction(inter_type, *interaction, link.citations)",
       "molecule.add_or_replace_interaction(inter_type, *interaction, link.citations)\n                        break")]))
+
+
+# ------------------------------------------------------------------ DoLinks.run_molecule: what a placement does to the atoms
+LNode2, MAtom2, RKey2, RVal2 = TKey('LNode2'), TKey('MAtom2'), TKey('RKey2'), TKey('RVal2')
+Repl = TMap(RKey2, TOpt(RVal2))
+
+
+def setup_replace(cx):
+    from pyvc.values import IterV, COERCIONS
+    from pyvc.builtins import _int, list_append, getitem, setitem
+    eng = cx.eng
+    LN = cx.val('LINK_NODES', TSeq(LNode2))                 # link.nodes, in order
+    cx.spec_env['LINK_NODES'] = LN
+    has_repl = cx.uf('has_replace', [LNode2], TBool)        # 'replace' in node_attrs
+    repl = cx.uf('replace_of', [LNode2], Repl)              # node_attrs['replace']
+    m_of = cx.uf('m_of', [LNode2], MAtom2)                  # match[node]: the atom of the molecule placed on the link atom
+    n_ = z3.Const('ln', LNode2.sort())
+    cx.assume(z3.ForAll([n_], Repl.inv(repl(n_))))
+    atomname = z3.Const('rkey!atomname', RKey2.sort())
+    COERCIONS[('Str', 'RKey2')] = lambda e: atomname if z3.is_string_value(e) and e.as_string() == 'atomname' else \
+        (_ for _ in ()).throw(EngineError('replace key %s' % e))
+    cx.spec_env['ATOMNAME'] = SV(RKey2, atomname)
+    MOLATTR = cx.heap('MOLATTR', cx.box('MOLATTR', TMap(MAtom2, Repl)))
+    REMOVE = cx.box('_nodes_to_remove', TSeq(MAtom2))
+
+    def attrs(ne):
+        o = Obj('linknode-attrs')
+        o.attrs['__contains__'] = Builtin(lambda e, k: wrap(TBool, has_repl(ne)) if k == 'replace' else
+                                          (_ for _ in ()).throw(EngineError('%r in node_attrs' % (k,))), 'in node_attrs')
+
+        def item(e, k):
+            if k != 'replace':
+                raise EngineError('node_attrs[%r]' % (k,))
+            e.maybe_raise(has_repl(ne), 'KeyError')
+            r = SV(Repl, repl(ne))
+            ro = Obj('replace')
+            ro.__dict__['map'] = r
+
+            def get(e2, key, d=None):
+                if key == 'atomname' and d is None:
+                    # .get('atomname') / .get('atomname', None): None also when the key is absent
+                    return SV(TOpt(RVal2), z3.If(Repl.has(r.e, atomname), Repl.at(r.e, atomname), TOpt(RVal2).none()))
+                if key != 'atomname' or d is not False:
+                    raise EngineError('replace.get(%r, %r)' % (key, d))
+                # .get('atomname', False): False when absent, else the value (None = "remove this atom")
+                if e2.branch(Repl.has(r.e, atomname)):
+                    return SV(TOpt(RVal2), Repl.at(r.e, atomname))
+                return False
+            ro.attrs['get'] = Builtin(get, 'replace.get')
+            return ro
+        o.attrs['__getitem__'] = Builtin(item, 'node_attrs[]')
+        return o
+    st = TSeq(LNode2)
+    link = Obj('Link', nodes=Obj('NodeView', items=Builtin(
+        lambda e: IterV(st.len(LN.e), lambda i: (SV(LNode2, st.at(LN.e, _int(i))), attrs(st.at(LN.e, _int(i))))), 'link.nodes.items')))
+    match = Obj('match', __getitem__=Builtin(lambda e, n: SV(MAtom2, m_of(to_z3(n, LNode2))), 'match[]'))
+
+    def mol_node(e, a):
+        ae = to_z3(a, MAtom2)
+
+        def update(e2, ro):
+            cur = to_z3(getitem(e2, MOLATTR, SV(MAtom2, ae)), Repl)
+            upd = ro.__dict__['map'].e
+            r = e2.fresh(Repl, 'updated')
+            x = z3.FreshConst(RKey2.sort(), 'uk')
+            e2.assume(z3.ForAll([x], z3.And(Repl.has(r, x) == z3.Or(Repl.has(cur, x), Repl.has(upd, x)),
+                                            Repl.at(r, x) == z3.If(Repl.has(upd, x), Repl.at(upd, x), Repl.at(cur, x)))))
+            e2.assume(Repl.inv(r))
+            setitem(e2, MOLATTR, SV(MAtom2, ae), SV(Repl, r))
+        return Obj('molnode', update=Builtin(update, 'node.update'))
+    molecule = Obj('Molecule', nodes=Obj('NodeView', __getitem__=Builtin(mol_node, 'molecule.nodes[]')))
+    return dict(molecule=molecule, link=link, match=match, _nodes_to_remove=REMOVE)
+
+
+SPEC_REPL = {
+    # the link says that the atom placed on this link atom is to be removed: replace = {'atomname': None, ...}
+    'drops': "lambda n: has_replace(n) and ATOMNAME in replace_of(n) and replace_of(n)[ATOMNAME] is None",
+    'edits': "lambda n: has_replace(n) and not drops(n)",
+}
+REPL_INV = [
+    "len(g_src) == len(_nodes_to_remove) - len(old(_nodes_to_remove))",
+    "forall(lambda q: implies(0 <= q and q < len(g_src), 0 <= g_src[q] and g_src[q] < {I} and drops(LINK_NODES[g_src[q]]) and "
+    "   _nodes_to_remove[len(old(_nodes_to_remove)) + q] == m_of(LINK_NODES[g_src[q]])))",
+    "forall(lambda p, q: implies(0 <= p and p < q and q < len(g_src), g_src[p] < g_src[q]))",
+    "forall(lambda i: implies(0 <= i and i < {I} and drops(LINK_NODES[i]), i in g_pos and 0 <= g_pos[i] and g_pos[i] < len(g_src) and g_src[g_pos[i]] == i))",
+    "forall(lambda q: implies(0 <= q and q < len(old(_nodes_to_remove)), _nodes_to_remove[q] == old(_nodes_to_remove)[q]))",
+    # an atom whose link atoms give it new attribute values carries the values of the last such link atom
+    "forall(lambda a: implies(not exists(lambda i: 0 <= i and i < {I} and edits(LINK_NODES[i]) and m_of(LINK_NODES[i]) == a), "
+    "   (a in MOLATTR) == (a in old(MOLATTR)) and implies(a in MOLATTR, MOLATTR[a] == old(MOLATTR)[a])), MAtom2)",
+    "forall(lambda i, k: implies(0 <= i and i < {I} and edits(LINK_NODES[i]) and k in replace_of(LINK_NODES[i]) and "
+    "   forall(lambda j: implies(i < j and j < {I} and edits(LINK_NODES[j]) and m_of(LINK_NODES[j]) == m_of(LINK_NODES[i]), not (k in replace_of(LINK_NODES[j])))), "
+    "   k in MOLATTR[m_of(LINK_NODES[i])] and MOLATTR[m_of(LINK_NODES[i])][k] == replace_of(LINK_NODES[i])[k]), TInt, RKey2)",
+]
+placement_atoms = FunctionContract(
+    F, 'DoLinks.run_molecule', 'C05', short='DoLinks.run_molecule[one placement: atoms]', setup=setup_replace, spec_defs=SPEC_REPL,
+    spec_env=dict(LNode2=LNode2, MAtom2=MAtom2, RKey2=RKey2),
+    region=dict(within=["for link in links:", "for match in matches:"], start="for node, node_attrs in link.nodes.items():",
+                end="for inter_type, interactions in link.removed_interactions.items():"),
+    locals=dict(g_src=TSeq(TInt), g_pos=TMap(TInt, TInt)), ghost_at={'entry': "g_src = []\ng_pos = {}"},
+    requires=["forall(lambda i: implies(0 <= i and i < len(LINK_NODES) and has_replace(LINK_NODES[i]), m_of(LINK_NODES[i]) in MOLATTR))"],
+    ensures=[x.format(I='len(LINK_NODES)') for x in REPL_INV],
+    modifies=['MOLATTR', '_nodes_to_remove'],
+    loops={'L1': LoopSpec(inv=[x.format(I='_i') for x in REPL_INV] +
+                          ["forall(lambda i: implies(0 <= i and i < len(LINK_NODES) and has_replace(LINK_NODES[i]), m_of(LINK_NODES[i]) in MOLATTR))"],
+                          modifies=['MOLATTR', '_nodes_to_remove', 'g_src', 'g_pos'],
+                          locals=dict(g_n0=TInt), ghost_pre="g_n0 = len(_nodes_to_remove)",
+                          ghost_end="if len(_nodes_to_remove) > g_n0:\n    g_src.append(_i)\n    g_pos[_i] = len(g_src) - 1")},
+    canary=[("if node_attrs['replace'].get('atomname', False) is None:", "if node_attrs['replace'].get('atomname', None) is None:"),
+            ("_nodes_to_remove.append(match[node])", "pass"),
+            ("node_mol.update(node_attrs['replace'])", "pass")],
+)
+CONTRACTS.append(placement_atoms)
